@@ -78,14 +78,14 @@ def gen_truth(rng, n_events=None, dt=None, noise=0.0):
     dt = dt or rng.choice([600, 1200, 1800, 3600])
     t0 = (rng.randint(631152000, 1893456000) // dt) * dt
     sy = rng.choice([0.125, 0.25, 0.5])
-    NZ = 160
+    NZ = 160 if (n_events or 0) <= 9 else 40 * (n_events + 2)
     top = float(rng.randint(-40, 120)) / 4
     Z = [top]
     for _ in range(NZ):
         Z.append(Z[-1] - rng.choice([0.5, 0.75, 1.0, 1.25, 1.5, 2.0, 3.0]))
     s, j = 0.25, (2.0 if not noise else 3600.0 / dt)
     n_events = n_events or rng.randint(3, 9)
-    pos = rng.randint(10, 40)          # index into Z
+    pos = rng.randint(10, 40) if NZ == 160 else rng.randint(NZ // 3, NZ // 2)          # index into Z
     level = [Z[pos]]
     rain = []
     events = []
@@ -144,20 +144,24 @@ def run_workflow(ctx, rec_rows, s, j, zstep, rise_ref=None, recession_ref=None, 
     files = cli.write_dataset(ctx.tmp, name, *rec_rows)
     db = ctx.scratch(name + ".sqlite3")
     out = {"db": db, "files": files, "status": {}}
+    verbosity = ctx.rng.choice([0, 0, 0, 0, 1, 3, 4]) if _N[0] % 3 == 0 else 0
+    vargs = ["-" + "v" * verbosity, "--logfile", db + ".log"] if verbosity else []
     for st in steps:
+        cli.VERBOSITY[0] = verbosity
         if st == "load":
             r = cli.load(db, files, tz)
         elif st == "classify":
             r = cli.classify(db, s, j)
         elif st == "grid":
-            r = cli.run(["set-zeta-grid", db, "-d", repr(float(zstep))])
+            r = cli.run(["set-zeta-grid", db, "-d", repr(float(zstep))] + vargs)
         elif st == "rise":
-            r = cli.run(["rise", db] + (["-r", rise_ref] if rise_ref is not None else []))
+            r = cli.run(["rise", db] + (["-r", rise_ref] if rise_ref is not None else []) + vargs)
         elif st == "recession":
-            r = cli.run(["recession", db] + (["-r", recession_ref] if recession_ref is not None else []))
+            r = cli.run(["recession", db] + (["-r", recession_ref] if recession_ref is not None else []) + vargs)
         out["status"][st] = r
         if r[0] != "ok" and st in ("load", "classify", "grid"):
             break
+    cli.VERBOSITY[0] = 0
     out["tables"] = cli.dump(db)
     if not keep_db:
         cleanup(out)
@@ -165,7 +169,7 @@ def run_workflow(ctx, rec_rows, s, j, zstep, rise_ref=None, recession_ref=None, 
 
 
 def cleanup(out):
-    for p in list(out["files"]) + [out["db"]]:
+    for p in list(out["files"]) + [out["db"], out["db"] + ".log"]:
         try:
             os.remove(p)
         except OSError:
